@@ -358,6 +358,8 @@ class FullLib(Lib):
             "Exception": lambda: isinstance(x, VObj) and x.cls in EXC_PARENT,
         }
         if n not in table:
+            if n in EXC_PARENT:
+                return z3.BoolVal(isinstance(x, VObj) and x.cls in EXC_PARENT and is_subclass(x.cls, n))
             raise Undecided(f"isinstance(.., {n})")
         return z3.BoolVal(bool(table[n]()))
 
@@ -479,6 +481,8 @@ class FullLib(Lib):
             if len(node.generators) != 1 or gen.ifs:
                 raise Undecided("any() over a filtered/nested generator")
             src = it.eval(gen.iter, env)
+            if isinstance(src, VObj) and src.cls == "file" and not src.f["binary"]:
+                return self.any_line(it, node, gen, src, env)
             # schema: any(ch.isspace() for ch in <str>)
             if isinstance(src, (VStr, VDyn)):
                 s = self.need_str(it, src, "TypeError")
@@ -493,6 +497,11 @@ class FullLib(Lib):
                     return VBool(True)
             return VBool(False)
         raise Undecided(f"any({g})")
+
+    def c_enumerate(self, it, x, start=None):
+        items = self.iter_concrete(it, x)
+        k = 0 if start is None else z3.simplify(self.as_int(it, start).term).as_long()
+        return VList([VTuple([VInt(k + i), v]) for i, v in enumerate(items)])
 
     def c_sum(self, it, g):
         """sum(1 for ch in <str> if ch.isdigit())  ->  ndigits(<str>)"""
@@ -521,6 +530,27 @@ class FullLib(Lib):
                             return VBool(False)
                     return VBool(True)
         raise Undecided("all() over a symbolic iterable")
+
+    def any_line(self, it, node, gen, h, env):
+        """any(<pure cond(line)> for line in <text file>): exists a line satisfying the condition"""
+        from .interp import Env
+        ctx = it.ctx
+        if h.f.get("loc") is None or not ctx.implied(h.f["pos"] == 0):
+            raise Undecided("line iteration not from the start of a store file")
+        self.maybe_fault(it, "read", h.f["loc"])
+        m = T.as_lines(self.fs_get(it, h.f["loc"]))
+        x = ctx.fresh("line", T.S)
+        lv = VStr(z3.Concat(x, z3.StringVal("\n")))
+        lv.line_of = x
+        sub = Env(env)
+        it.assign(gen.target, lv, sub)
+        ctx.pure += 1
+        try:
+            c = it.truth(it.eval(node.elt, sub))
+        finally:
+            ctx.pure -= 1
+        h.f["pos"] = ctx.fresh("eof", T.I)
+        return VBool(_exists_line(m, x, c))
 
     def c_range(self, it, *a):
         vals = [z3.simplify(self.as_int(it, x).term) for x in a]
@@ -593,11 +623,24 @@ class FullLib(Lib):
         raise Undecided(f"listdir({p})")
 
     def c_os_stat(self, it, p):
-        # a stat failure of any kind is an OSError subclass
+        # a store file: existence and size come from the abstract file system
+        q = self.as_path(it, p)
+        if isinstance(q, VPath) and not self.is_dir_path(q) and q.anchor != A_EXT:
+            loc = self.path_loc(it, q)
+            st = self.fs_get(it, loc)
+            it.ctx.event("probe", loc=loc)
+            if not it.ctx.branch(T.present(st)):
+                it.raise_("FileNotFoundError")
+            blk = it.ctx.fresh("blksize", T.I)
+            it.ctx.assume(blk >= 1)
+            return VObj("stat_result", blk=VInt(blk), st_size=VInt(fsize(st)))
+        # a caller-supplied file: a stat failure of any kind is an OSError subclass
         if it.ctx.__dict__.get("stat_always_ok") or it.ctx.branch(it.ctx.fresh("stat_ok", T.B)):
             blk = it.ctx.fresh("blksize", T.I)
             it.ctx.assume(blk >= 1)
-            return VObj("stat_result", blk=VInt(blk))
+            size = it.ctx.fresh("st_size", T.I)
+            it.ctx.assume(size >= 0)
+            return VObj("stat_result", blk=VInt(blk), st_size=VInt(size))
         it.raise_("OSError")
 
     def c_os_umask(self, it, m):
@@ -932,6 +975,8 @@ class FullLib(Lib):
             return NONE
         if name in ("exists", "is_file"):
             return VBool(self.exists(it, p))
+        if name == "joinpath":
+            return self.join(it, p, list(args)).with_(pathobj=True)
         if name == "is_dir":
             return self.c_os_path_isdir(it, p)
         if name in ("rename", "replace"):
@@ -1279,12 +1324,12 @@ class LoopLib(FullLib):
                         ea, sa = run([x, y])
                         eb, sb = run([z3.Concat(x, y)])
                         ctx.oblige(f"{who}/loop-fold/homomorphic",
-                                   z3.And(sa.fs == sb.fs, _env_eq(it, ea, eb, s.target)),
+                                   z3.And(sa.fs == sb.fs, _env_eq(it, ea, eb, s.target, s.body)),
                                    detail=site)
                     else:
                         ec, sc = run([T.EMPTY])
                         ctx.oblige(f"{who}/loop-fold/unit",
-                                   z3.And(sc.fs == ctx.st.fs, _env_eq(it, ec, env, s.target)),
+                                   z3.And(sc.fs == ctx.st.fs, _env_eq(it, ec, env, s.target, s.body)),
                                    detail=site)
                 except Mismatch as m:
                     raise Undecided(f"fold body changes the shape of its state: {m}")
@@ -1294,6 +1339,9 @@ class LoopLib(FullLib):
         it.assign(s.target, mk(total), env)
         it.exec_block(s.body, env)
         it.assign(s.target, VOpaque("last chunk"), env)
+        for name in _loop_temporaries(s.body):
+            if name in env.vars:
+                env.vars[name] = VOpaque("value of the last iteration")
 
     # ---- loops over the lines of a reference file -----------------------------------------------
     def lines_search_loop(self, it, s, h, env):
@@ -1404,9 +1452,46 @@ def _clone_env(env, memo):
     return e
 
 
-def _env_eq(it, a, b, target):
+def _loop_temporaries(body):
+    """Names that every iteration assigns before it reads them (per-iteration temporaries)."""
+    first = {}
+    for st in body:
+        for n in ast.walk(st):
+            if isinstance(n, ast.Name) and n.id not in first:
+                first[n.id] = (n.lineno, n.col_offset, isinstance(n.ctx, ast.Store))
+    # ast.walk is breadth-first: decide by source position instead
+    seen = {}
+    for st in body:
+        for n in ast.walk(st):
+            if isinstance(n, ast.Name):
+                key = (n.lineno, n.col_offset)
+                # in `x = f(x)` the value is evaluated first although the target is to its left
+                cur = seen.get(n.id)
+                if cur is None or key < cur[0]:
+                    seen[n.id] = (key, isinstance(n.ctx, ast.Store), n)
+    temps = set()
+    for name, (key, is_store, node) in seen.items():
+        if not is_store:
+            continue
+        # the earliest occurrence is an assignment target: make sure its own right-hand side
+        # does not read the name
+        reads_self = False
+        for st in body:
+            for a in ast.walk(st):
+                if isinstance(a, (ast.Assign, ast.AugAssign)) and any(
+                        isinstance(t, ast.Name) and t.id == name
+                        for t in ([a.target] if isinstance(a, ast.AugAssign) else a.targets)):
+                    if isinstance(a, ast.AugAssign) or any(
+                            isinstance(x, ast.Name) and x.id == name for x in ast.walk(a.value)):
+                        reads_self = True
+        if not reads_self:
+            temps.add(name)
+    return temps
+
+
+def _env_eq(it, a, b, target, body=()):
     from .contract import veq
-    skip = {n.id for n in ast.walk(target) if isinstance(n, ast.Name)}
+    skip = {n.id for n in ast.walk(target) if isinstance(n, ast.Name)} | _loop_temporaries(body)
     cs = []
     while a is not None and b is not None:
         for k in a.vars:
